@@ -429,7 +429,11 @@ class Repository(base.AbstractGitHostObject, base.AbstractRepository):
             raise
 
         for key, status in combined.status.items():
-            cache.BUILD_STATUS_CACHE[key].set(combined.commit, status)
+            # Never overwrite a successful build that is still in the cache
+            # (same rule as for the status events received by the server).
+            cached = cache.BUILD_STATUS_CACHE[key].get(combined.commit, None)
+            if not cached or cached.state != 'SUCCESSFUL':
+                cache.BUILD_STATUS_CACHE[key].set(combined.commit, status)
 
         return combined
 
